@@ -20,7 +20,7 @@ RELATIONS = [
     "fresh", "collide_curie", "collide_uri", "collide_both_same", "collide_two",
     "case_only", "identical", "new_synonyms_only", "syn_vs_canon", "invalid", "same_object",
 ]
-PATTERNS = [None, None, "^\\d+$", "^[a-z]\\\\w+$"]
+PATTERNS = [None, None, "^\\d+$", "^[a-z]\\\\w+$", ""]     # "" is a legal, falsy pattern
 
 
 # add_prefix documents its synonym parameters as Collection[str] | None: every real Collection is tried
